@@ -1,6 +1,8 @@
 //! C16 — commands succeed only if truly accepted; every request gets exactly one outcome
 use crate::app::control::*;
-use crate::app::variations::{Group12Var1, Group41Var1, Group41Var2, Group41Var3, Group41Var4, Variation};
+use crate::app::variations::{
+    Group12Var1, Group41Var1, Group41Var2, Group41Var3, Group41Var4, Variation,
+};
 use crate::app::{FunctionCode, MaybeAsync};
 use crate::master::*;
 use crate::verif::engine::*;
@@ -59,8 +61,32 @@ fn build_commands(hs: &[CmdHdr]) -> CommandHeaders {
         for (idx, p) in &h.objs {
             let i8 = *idx as u8;
             match (h.kind, h.two_byte) {
-                (0, false) => b.add_u8(Group12Var1::new(ControlCode::from_op_type(if p % 2 == 0 { OpType::LatchOn } else { OpType::LatchOff }), 1, 100 + *p as u32, 10), i8),
-                (0, true) => b.add_u16(Group12Var1::new(ControlCode::from_op_type(if p % 2 == 0 { OpType::LatchOn } else { OpType::LatchOff }), 1, 100 + *p as u32, 10), *idx),
+                (0, false) => b.add_u8(
+                    Group12Var1::new(
+                        ControlCode::from_op_type(if p % 2 == 0 {
+                            OpType::LatchOn
+                        } else {
+                            OpType::LatchOff
+                        }),
+                        1,
+                        100 + *p as u32,
+                        10,
+                    ),
+                    i8,
+                ),
+                (0, true) => b.add_u16(
+                    Group12Var1::new(
+                        ControlCode::from_op_type(if p % 2 == 0 {
+                            OpType::LatchOn
+                        } else {
+                            OpType::LatchOff
+                        }),
+                        1,
+                        100 + *p as u32,
+                        10,
+                    ),
+                    *idx,
+                ),
                 (1, false) => b.add_u8(Group41Var1::new(*p as i32 * 1000 - 5), i8),
                 (1, true) => b.add_u16(Group41Var1::new(*p as i32 * 1000 - 5), *idx),
                 (2, false) => b.add_u8(Group41Var2::new(*p as i16 * 100 - 5), i8),
@@ -81,7 +107,17 @@ fn deviate(objects: &[u8], d: &Deviation) -> Vec<u8> {
     let mut hs: Vec<(u8, u8, u8, Vec<(u32, Vec<u8>)>)> = ra::walk(func::DIRECT_OPERATE, objects)
         .unwrap_or_default()
         .into_iter()
-        .map(|h| (h.g, h.v, h.q, h.objects.into_iter().map(|o| (o.index.unwrap_or(0), o.data)).collect()))
+        .map(|h| {
+            (
+                h.g,
+                h.v,
+                h.q,
+                h.objects
+                    .into_iter()
+                    .map(|o| (o.index.unwrap_or(0), o.data))
+                    .collect(),
+            )
+        })
         .collect();
     let total: usize = hs.iter().map(|h| h.3.len()).sum();
     let locate = |k: u16, hs: &Vec<(u8, u8, u8, Vec<(u32, Vec<u8>)>)>| -> (usize, usize) {
@@ -140,9 +176,23 @@ fn deviate(objects: &[u8], d: &Deviation) -> Vec<u8> {
     let mut out = vec![];
     for (g, v, q, objs) in hs {
         if q == 0x17 {
-            out.extend(ra::h_prefixed8(g, v, &objs.iter().map(|(i, d)| (*i as u8, d.clone())).collect::<Vec<_>>()));
+            out.extend(ra::h_prefixed8(
+                g,
+                v,
+                &objs
+                    .iter()
+                    .map(|(i, d)| (*i as u8, d.clone()))
+                    .collect::<Vec<_>>(),
+            ));
         } else {
-            out.extend(ra::h_prefixed16(g, v, &objs.iter().map(|(i, d)| (*i as u16, d.clone())).collect::<Vec<_>>()));
+            out.extend(ra::h_prefixed16(
+                g,
+                v,
+                &objs
+                    .iter()
+                    .map(|(i, d)| (*i as u16, d.clone()))
+                    .collect::<Vec<_>>(),
+            ));
         }
     }
     out
@@ -167,7 +217,16 @@ impl Prop for Commands {
         vec![("faithful", 80), ("deviation_at_step_2", 80)]
     }
     fn strategy(_tier: Tier) -> BoxedStrategy<CmdCase> {
-        let hdr = (0u8..5, any::<bool>(), proptest::collection::vec((0u16..200, any::<u8>()), 1..=4)).prop_map(|(kind, two_byte, objs)| CmdHdr { kind, two_byte, objs });
+        let hdr = (
+            0u8..5,
+            any::<bool>(),
+            proptest::collection::vec((0u16..200, any::<u8>()), 1..=4),
+        )
+            .prop_map(|(kind, two_byte, objs)| CmdHdr {
+                kind,
+                two_byte,
+                objs,
+            });
         let dev = prop_oneof![
             (any::<u16>(), any::<u8>()).prop_map(|(k, c)| Deviation::Status(k, c)),
             (any::<u16>(), any::<u8>()).prop_map(|(k, b)| Deviation::ValueByte(k, b)),
@@ -182,7 +241,13 @@ impl Prop for Commands {
             Just(Deviation::Lost),
             Just(Deviation::NotFin),
         ];
-        (any::<bool>(), proptest::collection::vec(hdr, 1..=3), proptest::option::weighted(0.85, (1u8..=2, dev))).prop_map(|(sbo, headers, dev)| CmdCase { sbo, headers, dev }).boxed()
+        (
+            any::<bool>(),
+            proptest::collection::vec(hdr, 1..=3),
+            proptest::option::weighted(0.85, (1u8..=2, dev)),
+        )
+            .prop_map(|(sbo, headers, dev)| CmdCase { sbo, headers, dev })
+            .boxed()
     }
     fn run(case: &CmdCase) -> CaseOut {
         let rt = runtime();
@@ -193,11 +258,16 @@ impl Prop for Commands {
 async fn run_cmd(case: &CmdCase) -> CaseOut {
     let mut out = CaseOut::default();
     let mut rig = MasterRig::start(true, [0; 4], 2048).await;
-    rig.add_association(OUT, assoc_config(TIMEOUT), Some(0)).await;
+    rig.add_association(OUT, assoc_config(TIMEOUT), Some(0))
+        .await;
     rig.connect().await;
     let mut h = rig.assocs[&OUT].handle.clone();
     let cmds = build_commands(&case.headers);
-    let mode = if case.sbo { CommandMode::SelectBeforeOperate } else { CommandMode::DirectOperate };
+    let mode = if case.sbo {
+        CommandMode::SelectBeforeOperate
+    } else {
+        CommandMode::DirectOperate
+    };
     let pending = rig.submit("operate", async move { h.operate(mode, cmds).await });
     rig.settle().await;
     let steps = if case.sbo { 2 } else { 1 };
@@ -212,11 +282,17 @@ async fn run_cmd(case: &CmdCase) -> CaseOut {
     }
     for step in 1..=steps {
         let reqs = rig.take_requests();
-        let req = match reqs.iter().find(|(_, d, f)| *d == OUT && f.func != func::CONFIRM) {
+        let req = match reqs
+            .iter()
+            .find(|(_, d, f)| *d == OUT && f.func != func::CONFIRM)
+        {
             Some((_, _, f)) => f.clone(),
             None => {
                 if faithful_so_far {
-                    out.fail(Fail::new("step-not-sent", format!("step {step} of the command was not transmitted")));
+                    out.fail(Fail::new(
+                        "step-not-sent",
+                        format!("step {step} of the command was not transmitted"),
+                    ));
                 }
                 break;
             }
@@ -228,22 +304,49 @@ async fn run_cmd(case: &CmdCase) -> CaseOut {
             );
             break;
         }
-        let want_func = if !case.sbo { func::DIRECT_OPERATE } else if step == 1 { func::SELECT } else { func::OPERATE };
+        let want_func = if !case.sbo {
+            func::DIRECT_OPERATE
+        } else if step == 1 {
+            func::SELECT
+        } else {
+            func::OPERATE
+        };
         if req.func != want_func {
-            out.fail(Fail::new("wrong-step-function", format!("step {step}: function {} transmitted, expected {want_func}", req.func)));
+            out.fail(Fail::new(
+                "wrong-step-function",
+                format!(
+                    "step {step}: function {} transmitted, expected {want_func}",
+                    req.func
+                ),
+            ));
             break;
         }
         match &first {
             None => first = Some((req.seq, req.objects.clone())),
             Some((s, o)) => {
                 if req.seq != (s + 1) & 0x0F || req.objects != *o {
-                    out.fail(Fail::new("operate-differs-from-select", format!("OPERATE seq {} objects {:02x?} after SELECT seq {} objects {:02x?}", req.seq, req.objects, s, o)));
+                    out.fail(Fail::new(
+                        "operate-differs-from-select",
+                        format!(
+                            "OPERATE seq {} objects {:02x?} after SELECT seq {} objects {:02x?}",
+                            req.seq, req.objects, s, o
+                        ),
+                    ));
                     break;
                 }
             }
         }
         // the echo
-        let mut echo = Fragment { fir: true, fin: true, con: false, uns: false, seq: req.seq, func: func::RESPONSE, iin: Some((0, 0)), objects: req.objects.clone() };
+        let mut echo = Fragment {
+            fir: true,
+            fin: true,
+            con: false,
+            uns: false,
+            seq: req.seq,
+            func: func::RESPONSE,
+            iin: Some((0, 0)),
+            objects: req.objects.clone(),
+        };
         let mut send = true;
         if step == dev_step {
             faithful_so_far = false;
@@ -260,7 +363,13 @@ async fn run_cmd(case: &CmdCase) -> CaseOut {
                 }
                 d => echo.objects = deviate(&req.objects, d),
             }
-            if echo.objects == req.objects && echo.iin == Some((0, 0)) && echo.seq == req.seq && echo.fin && send && !matches!(case.dev.as_ref().unwrap().1, Deviation::Late) {
+            if echo.objects == req.objects
+                && echo.iin == Some((0, 0))
+                && echo.seq == req.seq
+                && echo.fin
+                && send
+                && !matches!(case.dev.as_ref().unwrap().1, Deviation::Late)
+            {
                 // the deviation had no effect on this command set (e.g. swapping two identical objects)
                 faithful_so_far = true;
                 out.label("deviation_without_effect");
@@ -274,21 +383,50 @@ async fn run_cmd(case: &CmdCase) -> CaseOut {
     // anything still waiting times out
     rig.advance(TIMEOUT + 1).await;
     let stray = rig.take_requests();
-    if !faithful_so_far && stray.iter().any(|(_, _, f)| f.func == func::OPERATE || f.func == func::DIRECT_OPERATE) {
-        out.fail(Fail::new("step-after-unfaithful-echo", format!("after a deviating echo the master still transmitted {:?}", stray.iter().map(|x| x.2.func).collect::<Vec<_>>())));
+    if !faithful_so_far
+        && stray
+            .iter()
+            .any(|(_, _, f)| f.func == func::OPERATE || f.func == func::DIRECT_OPERATE)
+    {
+        out.fail(Fail::new(
+            "step-after-unfaithful-echo",
+            format!(
+                "after a deviating echo the master still transmitted {:?}",
+                stray.iter().map(|x| x.2.func).collect::<Vec<_>>()
+            ),
+        ));
     }
     let res = pending.outcomes();
     if res.len() != 1 {
-        out.fail(Fail::new("not-exactly-one-outcome", format!("the command future resolved {} times", res.len())));
+        out.fail(Fail::new(
+            "not-exactly-one-outcome",
+            format!("the command future resolved {} times", res.len()),
+        ));
     } else {
         let ok = res[0].1.starts_with("Ok");
         if ok != faithful_so_far {
             out.fail(
                 Fail::new(
-                    if ok { "command-reported-success-without-faithful-echo" } else { "faithfully-echoed-command-failed" },
-                    format!("outcome {} with deviation {:?} (mode {})", res[0].1, case.dev, if case.sbo { "select-before-operate" } else { "direct operate" }),
+                    if ok {
+                        "command-reported-success-without-faithful-echo"
+                    } else {
+                        "faithfully-echoed-command-failed"
+                    },
+                    format!(
+                        "outcome {} with deviation {:?} (mode {})",
+                        res[0].1,
+                        case.dev,
+                        if case.sbo {
+                            "select-before-operate"
+                        } else {
+                            "direct operate"
+                        }
+                    ),
                 )
-                .with_sig(format!("C16 command outcome ok={ok} dev={:?}", case.dev.as_ref().map(|d| std::mem::discriminant(&d.1)))),
+                .with_sig(format!(
+                    "C16 command outcome ok={ok} dev={:?}",
+                    case.dev.as_ref().map(|d| std::mem::discriminant(&d.1))
+                )),
             );
         }
     }
@@ -352,20 +490,42 @@ impl FileReader for FileLog {
         }
     }
     fn block_received(&mut self, block_num: u32, data: &[u8]) -> MaybeAsync<FileAction> {
-        self.0.lock().unwrap().push(format!("block({block_num},{})", data.len()));
-        MaybeAsync::ready(if self.1 == 2 { FileAction::Abort } else { FileAction::Continue })
+        self.0
+            .lock()
+            .unwrap()
+            .push(format!("block({block_num},{})", data.len()));
+        MaybeAsync::ready(if self.1 == 2 {
+            FileAction::Abort
+        } else {
+            FileAction::Continue
+        })
     }
     fn aborted(&mut self, err: FileError) {
-        self.0.lock().unwrap().push(format!("TERMINAL aborted({:?})", err));
+        self.0
+            .lock()
+            .unwrap()
+            .push(format!("TERMINAL aborted({:?})", err));
     }
     fn completed(&mut self) {
-        self.0.lock().unwrap().push("TERMINAL completed".to_string());
+        self.0
+            .lock()
+            .unwrap()
+            .push("TERMINAL completed".to_string());
     }
 }
 
 /// the faithful outstation: the proper answer to any request of the kinds above
 fn answer(req: &Fragment) -> Fragment {
-    let mut r = Fragment { fir: true, fin: true, con: false, uns: false, seq: req.seq, func: func::RESPONSE, iin: Some((0, 0)), objects: vec![] };
+    let mut r = Fragment {
+        fir: true,
+        fin: true,
+        con: false,
+        uns: false,
+        seq: req.seq,
+        func: func::RESPONSE,
+        iin: Some((0, 0)),
+        objects: vec![],
+    };
     let ff = |v: u8, body: Vec<u8>| -> Vec<u8> {
         let mut o = vec![70, v, 0x5B, 1];
         o.extend_from_slice(&(body.len() as u16).to_le_bytes());
@@ -376,9 +536,18 @@ fn answer(req: &Fragment) -> Fragment {
         func::READ => {
             if req.objects.len() >= 14 && req.objects[0] == 70 && req.objects[1] == 5 {
                 let handle = &req.objects[6..10];
-                let block = u32::from_le_bytes([req.objects[10], req.objects[11], req.objects[12], req.objects[13]]);
+                let block = u32::from_le_bytes([
+                    req.objects[10],
+                    req.objects[11],
+                    req.objects[12],
+                    req.objects[13],
+                ]);
                 let mut body = handle.to_vec();
-                let wire_block = if block >= 1 { block | 0x8000_0000 } else { block };
+                let wire_block = if block >= 1 {
+                    block | 0x8000_0000
+                } else {
+                    block
+                };
                 body.extend_from_slice(&wire_block.to_le_bytes());
                 body.extend_from_slice(&[1, 2, 3, 4]);
                 r.objects = ff(5, body);
@@ -437,9 +606,17 @@ async fn run_outcome(case: &OutcomeCase) -> CaseOut {
     let (name, steps) = KINDS[case.kind as usize % KINDS.len()];
     out.label(format!("kind:{name}"));
     let mut rig = MasterRig::start(true, [0; 4], 2048).await;
-    rig.add_association(OUT, assoc_config(TIMEOUT), Some(1_600_000_000_000)).await;
+    rig.add_association(OUT, assoc_config(TIMEOUT), Some(1_600_000_000_000))
+        .await;
     rig.connect().await;
-    let file_log = FileLog(Default::default(), if name == "read_file" { case.reader_abort } else { 0 });
+    let file_log = FileLog(
+        Default::default(),
+        if name == "read_file" {
+            case.reader_abort
+        } else {
+            0
+        },
+    );
     let t0 = rig.now_ms();
     let pending = submit_kind(&rig, name, file_log.clone());
     // a second request waiting in the queue behind the first
@@ -452,39 +629,115 @@ async fn run_outcome(case: &OutcomeCase) -> CaseOut {
         None
     };
     rig.settle().await;
-    judge_outcomes(case, &mut out, rig, name, steps, pending, file_log, second, t0).await;
+    judge_outcomes(
+        case, &mut out, rig, name, steps, pending, file_log, second, t0,
+    )
+    .await;
     out
 }
 
 fn submit_kind(rig: &MasterRig, name: &'static str, fl: FileLog) -> Pending {
     let mut h = rig.assocs[&OUT].handle.clone();
     match name {
-        "read" => rig.submit(name, async move { h.read(ReadRequest::class_scan(Classes::class0())).await.map_err(|e| format!("{:?}", e)) }),
+        "read" => rig.submit(name, async move {
+            h.read(ReadRequest::class_scan(Classes::class0()))
+                .await
+                .map_err(|e| format!("{:?}", e))
+        }),
         "command_sbo" => rig.submit(name, async move {
-            h.operate(CommandMode::SelectBeforeOperate, CommandBuilder::single_header_u8(Group12Var1::from_code(ControlCode::from_op_type(OpType::LatchOn)), 3u8)).await.map_err(|e| format!("{:?}", e))
+            h.operate(
+                CommandMode::SelectBeforeOperate,
+                CommandBuilder::single_header_u8(
+                    Group12Var1::from_code(ControlCode::from_op_type(OpType::LatchOn)),
+                    3u8,
+                ),
+            )
+            .await
+            .map_err(|e| format!("{:?}", e))
         }),
         "command_direct" => rig.submit(name, async move {
-            h.operate(CommandMode::DirectOperate, CommandBuilder::single_header_u16(Group41Var2::new(7), 300u16)).await.map_err(|e| format!("{:?}", e))
+            h.operate(
+                CommandMode::DirectOperate,
+                CommandBuilder::single_header_u16(Group41Var2::new(7), 300u16),
+            )
+            .await
+            .map_err(|e| format!("{:?}", e))
         }),
-        "time_sync_lan" => rig.submit(name, async move { h.synchronize_time(TimeSyncProcedure::Lan).await.map_err(|e| format!("{:?}", e)) }),
-        "time_sync_non_lan" => rig.submit(name, async move { h.synchronize_time(TimeSyncProcedure::NonLan).await.map_err(|e| format!("{:?}", e)) }),
-        "time_sync_direct" => rig.submit(name, async move { h.synchronize_time(TimeSyncProcedure::DirectWriteAbsTime).await.map_err(|e| format!("{:?}", e)) }),
-        "cold_restart" => rig.submit(name, async move { h.cold_restart().await.map(|_| ()).map_err(|e| format!("{:?}", e)) }),
-        "warm_restart" => rig.submit(name, async move { h.warm_restart().await.map(|_| ()).map_err(|e| format!("{:?}", e)) }),
-        "write_dead_bands" => rig.submit(name, async move { h.write_dead_bands(vec![DeadBandHeader::group34_var1_u8(vec![(1, 5), (2, 6)])]).await.map_err(|e| format!("{:?}", e)) }),
+        "time_sync_lan" => rig.submit(name, async move {
+            h.synchronize_time(TimeSyncProcedure::Lan)
+                .await
+                .map_err(|e| format!("{:?}", e))
+        }),
+        "time_sync_non_lan" => rig.submit(name, async move {
+            h.synchronize_time(TimeSyncProcedure::NonLan)
+                .await
+                .map_err(|e| format!("{:?}", e))
+        }),
+        "time_sync_direct" => rig.submit(name, async move {
+            h.synchronize_time(TimeSyncProcedure::DirectWriteAbsTime)
+                .await
+                .map_err(|e| format!("{:?}", e))
+        }),
+        "cold_restart" => rig.submit(name, async move {
+            h.cold_restart()
+                .await
+                .map(|_| ())
+                .map_err(|e| format!("{:?}", e))
+        }),
+        "warm_restart" => rig.submit(name, async move {
+            h.warm_restart()
+                .await
+                .map(|_| ())
+                .map_err(|e| format!("{:?}", e))
+        }),
+        "write_dead_bands" => rig.submit(name, async move {
+            h.write_dead_bands(vec![DeadBandHeader::group34_var1_u8(vec![(1, 5), (2, 6)])])
+                .await
+                .map_err(|e| format!("{:?}", e))
+        }),
         "empty_response" => rig.submit(name, async move {
-            h.send_and_expect_empty_response(FunctionCode::ImmediateFreeze, Headers::default().add_all_objects(Variation::Group20Var0)).await.map_err(|e| format!("{:?}", e))
+            h.send_and_expect_empty_response(
+                FunctionCode::ImmediateFreeze,
+                Headers::default().add_all_objects(Variation::Group20Var0),
+            )
+            .await
+            .map_err(|e| format!("{:?}", e))
         }),
-        "link_status" => rig.submit(name, async move { h.check_link_status().await.map_err(|e| format!("{:?}", e)) }),
+        "link_status" => rig.submit(name, async move {
+            h.check_link_status().await.map_err(|e| format!("{:?}", e))
+        }),
         _ => rig.submit(name, async move {
-            h.read_file("a.txt", FileReadConfig::default(), Box::new(fl), None).await.map_err(|e| format!("{:?}", e))
+            h.read_file("a.txt", FileReadConfig::default(), Box::new(fl), None)
+                .await
+                .map_err(|e| format!("{:?}", e))
         }),
     }
 }
 
 #[allow(clippy::too_many_arguments)]
-async fn judge_outcomes(case: &OutcomeCase, out: &mut CaseOut, mut rig: MasterRig, name: &'static str, steps: u8, pending: Pending, file_log: FileLog, second: Option<(&'static str, u8, Pending, FileLog)>, t0: u64) {
-    let fault_after = if case.fault == FaultKind::None { 99 } else { case.after_step.min(steps - if case.fault == FaultKind::ReplyLost { 1 } else { 0 }) };
+async fn judge_outcomes(
+    case: &OutcomeCase,
+    out: &mut CaseOut,
+    mut rig: MasterRig,
+    name: &'static str,
+    steps: u8,
+    pending: Pending,
+    file_log: FileLog,
+    second: Option<(&'static str, u8, Pending, FileLog)>,
+    t0: u64,
+) {
+    let fault_after = if case.fault == FaultKind::None {
+        99
+    } else {
+        case.after_step.min(
+            steps
+                - if case.fault == FaultKind::ReplyLost {
+                    1
+                } else {
+                    0
+                },
+        )
+    };
     if case.fault != FaultKind::None {
         out.nontrivial = true;
         if fault_after >= 1 && steps >= 2 {
@@ -498,7 +751,10 @@ async fn judge_outcomes(case: &OutcomeCase, out: &mut CaseOut, mut rig: MasterRi
     for _round in 0..16 {
         if step == fault_after && !faulted {
             faulted = true;
-            second_done_before_fault = second.as_ref().map(|s| !s.2.outcomes().is_empty()).unwrap_or(false);
+            second_done_before_fault = second
+                .as_ref()
+                .map(|s| !s.2.outcomes().is_empty())
+                .unwrap_or(false);
             match case.fault {
                 FaultKind::ReplyLost => {
                     // swallow the request that is on the wire now and never answer it
@@ -514,7 +770,10 @@ async fn judge_outcomes(case: &OutcomeCase, out: &mut CaseOut, mut rig: MasterRi
                 FaultKind::Disable => {
                     let mut ch = rig.channel.clone();
                     let p = rig.polls.clone();
-                    tokio::spawn(crate::verif::rig::Counted::new(async move { ch.disable().await }, p));
+                    tokio::spawn(crate::verif::rig::Counted::new(
+                        async move { ch.disable().await },
+                        p,
+                    ));
                     rig.settle().await;
                     expect_ok = step >= steps;
                     break;
@@ -522,7 +781,13 @@ async fn judge_outcomes(case: &OutcomeCase, out: &mut CaseOut, mut rig: MasterRi
                 FaultKind::RemoveAssociation => {
                     let mut ch = rig.channel.clone();
                     let p = rig.polls.clone();
-                    tokio::spawn(crate::verif::rig::Counted::new(async move { ch.remove_association(crate::link::EndpointAddress::raw(OUT)).await }, p));
+                    tokio::spawn(crate::verif::rig::Counted::new(
+                        async move {
+                            ch.remove_association(crate::link::EndpointAddress::raw(OUT))
+                                .await
+                        },
+                        p,
+                    ));
                     rig.settle().await;
                     expect_ok = step >= steps;
                     break;
@@ -559,11 +824,28 @@ async fn judge_outcomes(case: &OutcomeCase, out: &mut CaseOut, mut rig: MasterRi
     }
     // every outcome is due within (steps + 1) response timeouts; the queued request within as many more as it has steps
     let deadline = (steps as u64 + 1) * TIMEOUT;
-    let deadline2 = deadline + second.as_ref().map(|s| (s.1 as u64 + 1) * TIMEOUT).unwrap_or(0);
+    let deadline2 = deadline
+        + second
+            .as_ref()
+            .map(|s| (s.1 as u64 + 1) * TIMEOUT)
+            .unwrap_or(0);
     let mut waited = 0;
     while waited < deadline2 + 10 {
-        let done = |p: &Pending, n: &str, l: &FileLog| !p.outcomes().is_empty() && (n != "read_file" || l.0.lock().unwrap().iter().any(|l| l.starts_with("TERMINAL")));
-        if done(&pending, name, &file_log) && second.as_ref().map(|(n2, _, p2, l2)| done(p2, n2, l2)).unwrap_or(true) {
+        let done = |p: &Pending, n: &str, l: &FileLog| {
+            !p.outcomes().is_empty()
+                && (n != "read_file"
+                    || l.0
+                        .lock()
+                        .unwrap()
+                        .iter()
+                        .any(|l| l.starts_with("TERMINAL")))
+        };
+        if done(&pending, name, &file_log)
+            && second
+                .as_ref()
+                .map(|(n2, _, p2, l2)| done(p2, n2, l2))
+                .unwrap_or(true)
+        {
             break;
         }
         rig.advance(50).await;
@@ -572,7 +854,12 @@ async fn judge_outcomes(case: &OutcomeCase, out: &mut CaseOut, mut rig: MasterRi
     if let Some((n2, s2, p2, l2)) = &second {
         // the queued request: exactly one outcome (terminal callback), Ok only if nothing went wrong at all
         let res2 = p2.outcomes();
-        let terminals = l2.0.lock().unwrap().iter().filter(|l| l.starts_with("TERMINAL")).count();
+        let terminals =
+            l2.0.lock()
+                .unwrap()
+                .iter()
+                .filter(|l| l.starts_with("TERMINAL"))
+                .count();
         if res2.len() != 1 || (*n2 == "read_file" && terminals != 1) {
             out.fail(
                 Fail::new("queued-request-not-exactly-one-outcome", format!("{n2} queued behind {name}: future resolved {} times, {} terminal file callbacks within {} ms (fault {:?} after step {fault_after} of {steps}): {:?}", res2.len(), terminals, rig.now_ms() - t0, case.fault, res2))
@@ -604,13 +891,17 @@ async fn judge_outcomes(case: &OutcomeCase, out: &mut CaseOut, mut rig: MasterRi
         } else {
             let completed = terminals[0].contains("completed");
             // completion is signalled when the last block arrived (before the file is closed): steps 0..=2 answered
-            let want = case.reader_abort == 0 && (case.fault == FaultKind::None || fault_after >= 3);
+            let want =
+                case.reader_abort == 0 && (case.fault == FaultKind::None || fault_after >= 3);
             if completed != want {
                 out.fail(Fail::new("file-reader-outcome", format!("terminal callback {:?}, expected completed={want} (fault {:?} after step {fault_after}, reader_abort {})", terminals[0], case.fault, case.reader_abort)));
             }
         }
         if res.len() != 1 {
-            out.fail(Fail::new("not-exactly-one-outcome", format!("read_file future resolved {} times", res.len())));
+            out.fail(Fail::new(
+                "not-exactly-one-outcome",
+                format!("read_file future resolved {} times", res.len()),
+            ));
         }
     } else if res.len() != 1 {
         out.fail(
@@ -620,10 +911,29 @@ async fn judge_outcomes(case: &OutcomeCase, out: &mut CaseOut, mut rig: MasterRi
     } else {
         let ok = res[0].1.starts_with("Ok");
         if ok != expect_ok {
-            out.fail(Fail::new("wrong-outcome", format!("{name}: outcome {} but fault {:?} after step {fault_after} of {steps}", res[0].1, case.fault)).with_sig(format!("C16 wrong-outcome kind={name} fault={:?} ok={ok}", case.fault)));
+            out.fail(
+                Fail::new(
+                    "wrong-outcome",
+                    format!(
+                        "{name}: outcome {} but fault {:?} after step {fault_after} of {steps}",
+                        res[0].1, case.fault
+                    ),
+                )
+                .with_sig(format!(
+                    "C16 wrong-outcome kind={name} fault={:?} ok={ok}",
+                    case.fault
+                )),
+            );
         }
         if res[0].0 - t0 > deadline {
-            out.fail(Fail::new("outcome-too-late", format!("{name}: outcome after {} ms, bound {} ms", res[0].0 - t0, deadline)));
+            out.fail(Fail::new(
+                "outcome-too-late",
+                format!(
+                    "{name}: outcome after {} ms, bound {} ms",
+                    res[0].0 - t0,
+                    deadline
+                ),
+            ));
         }
     }
     if let Some(f) = rig.task_failure.take() {
